@@ -564,7 +564,7 @@ http_parse_resp_line(const uint8_t *http_hdr, size_t hdr_size,
     http_resp_line_data_p resp_data) {
 	const uint8_t *ptm;
 
-	if (NULL == http_hdr || 14 > hdr_size || NULL == resp_data)
+	if (NULL == http_hdr || 13 > hdr_size || NULL == resp_data)
 		return (EINVAL);
 	if (0 != memcmp("HTTP/", http_hdr, 5) ||
 	    ('0' > http_hdr[ 5] || '9' < http_hdr[ 5]) ||
